@@ -2030,6 +2030,9 @@ func unmarshalInet(info TypeInfo, data []byte, value interface{}) error {
 
 func marshalTuple(info TypeInfo, value interface{}) ([]byte, error) {
 	tuple := info.(TupleTypeInfo)
+	if value == nil {
+		return nil, nil
+	}
 	switch v := value.(type) {
 	case unsetColumn:
 		return nil, unmarshalErrorf("Invalid request: UnsetValue is unsupported for tuples")
